@@ -16,6 +16,7 @@
 (* original order; names, expressions, paths, sweep kinds are kept; every  *)
 (* number is the nearest double; unnamed analyses get names distinct from  *)
 (* every other analysis name; nested analyses are kept inside their parent.*)
+(* (Names the user gave may repeat: that is not the exporter's doing.)     *)
 (***************************************************************************)
 EXTENDS BigNum, FiniteSets, TLC
 
@@ -65,6 +66,13 @@ OptOk(a, o) == o.name = a.name /\ (IF a.form = "number" THEN (o.form = "number" 
 RECURSIVE Names(_)
 Names(ans) == IF ans = <<>> THEN <<>> ELSE <<Head(ans).name>> \o Names(Head(ans).inner) \o Names(Tail(ans))
 Distinct(s) == Cardinality({s[j] : j \in DOMAIN s}) = Len(s)
+(* the same traversal over the abstract analyses: was the name given by the user? *)
+RECURSIVE Given(_)
+Given(ans) == IF ans = <<>> THEN <<>> ELSE <<Head(ans).hasname>> \o Given(Head(ans).inner) \o Given(Tail(ans))
+(* a GENERATED name differs from every other analysis name; names the user gave are the user's business (one named analysis object may
+   legitimately sit at the top level and inside several sweeps) *)
+GeneratedDistinct(given, names) ==
+  Len(given) # Len(names) \/ \A i, j \in DOMAIN names : (i # j /\ (~given[i] \/ ~given[j])) => names[i] # names[j]
 
 (* first failing clause of an exported SimInput `out` for abstract sim `sim` ("" if none) *)
 SimDiff(sim, out) ==
@@ -77,6 +85,6 @@ SimDiff(sim, out) ==
   ELSE IF \E j \in 1..Len(ans) : ~AnOk(ans[j], out.an[j]) THEN "analysis:" \o ToString(CHOOSE j \in 1..Len(ans) : ~AnOk(ans[j], out.an[j]))
   ELSE IF \E j \in 1..Len(ctrls) : ~CtrlOk(ctrls[j], out.ctrls[j]) THEN "control:" \o ToString(CHOOSE j \in 1..Len(ctrls) : ~CtrlOk(ctrls[j], out.ctrls[j]))
   ELSE IF \E j \in 1..Len(opts) : ~OptOk(opts[j], out.opts[j]) THEN "option:" \o ToString(CHOOSE j \in 1..Len(opts) : ~OptOk(opts[j], out.opts[j]))
-  ELSE IF ~Distinct(Names(out.an)) THEN "analysis_names_not_distinct"
+  ELSE IF ~GeneratedDistinct(Given(ans), Names(out.an)) THEN "analysis_names_not_distinct"
   ELSE ""
 =============================================================================
